@@ -351,6 +351,9 @@ def _getitem(i, a, ix, node):
     from ..engine import SliceV
     check_live(a, node)
     ix = _strip_ellipsis(ix)
+    if a.ndim == 1 and isinstance(ix, tuple) and len(ix) == 2 and isinstance(ix[0], SliceV) and ix[1] is None \
+            and ix[0].lo is None and ix[0].hi is None:
+        return define2(i, a.shape[0], 1, a.elem_sort, lambda r, c: z3.Select(a.data, r), "colvec", a.dtype)
     if a.ndim == 1:
         if isinstance(ix, SliceV):
             lo, hi = slice_bounds(ix, a.shape[0])
@@ -456,6 +459,9 @@ def _setitem(i, a, ix, val, node):
                                patterns=[z3.Select(z3.Select(new, k), c)]))
         write(i, a, new, node)
         return True
+    if a.ndim == 1 and isinstance(ix, tuple) and len(ix) == 2 and isinstance(ix[0], SliceV) and ix[1] is None \
+            and ix[0].lo is None and ix[0].hi is None:
+        return define2(i, a.shape[0], 1, a.elem_sort, lambda r, c: z3.Select(a.data, r), "colvec", a.dtype)
     if a.ndim == 1:
         if isinstance(ix, SliceV):
             lo, hi = slice_bounds(ix, a.shape[0])
